@@ -311,6 +311,14 @@ pub fn run_fields(seed: u64, reps: usize, exhaustive16: bool, out: &mut dyn Writ
                     v.push(rng.random_range(0..=max));
                 }
                 v.retain(|x| *x <= max);
+                // the setter's argument type is wider than the field: values that do not fit must be truncated
+                if *w == 20 || *w == 9 {
+                    let cap: u64 = if *w == 20 { 0x7fff_ffff } else { 0xffff };
+                    v.extend([max + 1, max + 2, (max + 1) * 2 + 1, cap, cap - 1, (max + 1) | 0x5]);
+                    for _ in 0..reps {
+                        v.push(rng.random_range(max + 1..=cap));
+                    }
+                }
                 v
             };
             for v in values {
@@ -516,4 +524,239 @@ pub fn run_paris(seed: u64, all: bool, out: &mut dyn Write) -> usize {
     }
     writeln!(out, "{}", json!({"e":"end","panic":false,"panics":0})).unwrap();
     events + 1
+}
+
+// ---------------------------------------------------------------------------------------------
+// C14: RFC 4884 / RFC 4950 extensions through the real views
+// ---------------------------------------------------------------------------------------------
+use crate::wire::{self as w, ExtForm, ExtObject, MplsMember};
+use trippy_packet::icmp_extension::extension_structure::ExtensionsPacket;
+use trippy_packet::icmp_extension::mpls_label_stack::MplsLabelStackPacket;
+
+fn obj_json(o: &ExtObject) -> Value {
+    match o {
+        ExtObject::Mpls(ms) => json!({"cls":1,"sub":1,"plen":ms.len()*4,"mpls":ms.iter().map(|m| json!([m.label,m.exp,m.bos,m.ttl])).collect::<Vec<_>>()}),
+        ExtObject::Other { class, ctype, payload } => json!({"cls":class,"sub":ctype,"plen":payload.len(),"mpls":[]}),
+    }
+}
+
+/// Parse an ICMP error message with the real views; returns the abstract result and an iteration count.
+fn parse_ext(fam: u8, te: bool, msg: &[u8]) -> Option<Value> {
+    let (payload, ext, len_field): (&[u8], Option<&[u8]>, u8) = match (fam, te) {
+        (4, true) => {
+            let p = icmpv4::time_exceeded::TimeExceededPacket::new_view(msg).ok()?;
+            let pl = p.payload();
+            let ex = p.extension();
+            // SAFETY of lifetimes: slices borrow from msg
+            let pl2 = &msg[offset_of(msg, pl)..offset_of(msg, pl) + pl.len()];
+            let ex2 = ex.map(|e| &msg[offset_of(msg, e)..offset_of(msg, e) + e.len()]);
+            (pl2, ex2, p.get_length())
+        }
+        (4, false) => {
+            let p = icmpv4::destination_unreachable::DestinationUnreachablePacket::new_view(msg).ok()?;
+            let pl = p.payload();
+            let ex = p.extension();
+            let pl2 = &msg[offset_of(msg, pl)..offset_of(msg, pl) + pl.len()];
+            let ex2 = ex.map(|e| &msg[offset_of(msg, e)..offset_of(msg, e) + e.len()]);
+            (pl2, ex2, p.get_length())
+        }
+        (_, true) => {
+            let p = icmpv6::time_exceeded::TimeExceededPacket::new_view(msg).ok()?;
+            let pl = p.payload();
+            let ex = p.extension();
+            let pl2 = &msg[offset_of(msg, pl)..offset_of(msg, pl) + pl.len()];
+            let ex2 = ex.map(|e| &msg[offset_of(msg, e)..offset_of(msg, e) + e.len()]);
+            (pl2, ex2, p.get_length())
+        }
+        (_, false) => {
+            let p = icmpv6::destination_unreachable::DestinationUnreachablePacket::new_view(msg).ok()?;
+            let pl = p.payload();
+            let ex = p.extension();
+            let pl2 = &msg[offset_of(msg, pl)..offset_of(msg, pl) + pl.len()];
+            let ex2 = ex.map(|e| &msg[offset_of(msg, e)..offset_of(msg, e) + e.len()]);
+            (pl2, ex2, p.get_length())
+        }
+    };
+    let total = msg.len() - 8;
+    let p_off = offset_of(msg, payload) - 8;
+    let mut objs = Vec::new();
+    let mut iters = 0usize;
+    let mut version = -1i64;
+    let (e_off, e_len) = match ext {
+        Some(e) => (offset_of(msg, e) as i64 - 8, e.len() as i64),
+        None => (-1, 0),
+    };
+    if let Some(e) = ext {
+        if let Ok(ep) = ExtensionsPacket::new_view(e) {
+            if let Ok(h) = ExtensionHeaderPacket::new_view(ep.header()) {
+                version = i64::from(h.get_version());
+            }
+            for ob in ep.objects() {
+                iters += 1;
+                if iters > 4096 {
+                    break;
+                }
+                if let Ok(o) = ExtensionObjectPacket::new_view(ob) {
+                    let mut members = Vec::new();
+                    let pay = o.payload();
+                    if o.get_class_num() == ClassNum::MultiProtocolLabelSwitchingLabelStack {
+                        if let Ok(st) = MplsLabelStackPacket::new_view(pay) {
+                            for mb in st.members() {
+                                iters += 1;
+                                if iters > 4096 {
+                                    break;
+                                }
+                                if let Ok(m) = MplsLabelStackMemberPacket::new_view(mb) {
+                                    members.push(json!([m.get_label(), m.get_exp(), m.get_bos(), m.get_ttl()]));
+                                }
+                            }
+                        }
+                    }
+                    objs.push(json!({"cls":o.get_class_num().id(),"sub":o.get_class_subtype().0,"plen":pay.len(),"mpls":members}));
+                }
+            }
+        }
+    }
+    Some(json!({"len_field":len_field,"p_off":p_off,"p_len":payload.len(),"has_ext":ext.is_some(),"e_off":e_off,"e_len":e_len,
+        "total":total,"version":version,"objs":objs,"iters":iters}))
+}
+
+fn offset_of(outer: &[u8], inner: &[u8]) -> usize {
+    (inner.as_ptr() as usize).wrapping_sub(outer.as_ptr() as usize)
+}
+
+pub fn run_ext(seed: u64, n: usize, out: &mut dyn Write) -> (usize, usize) {
+    let mut rng = StdRng::seed_from_u64(seed ^ 0xc14);
+    let mut events = 0usize;
+    let mut panics = 0usize;
+    let s6 = Ipv6Addr::new(0xfd00, 0, 0, 0, 0, 0, 0, 9);
+    let d6 = Ipv6Addr::new(0xfd00, 0, 0, 0, 0, 0, 0, 1);
+    for i in 0..n {
+        let fam: u8 = if i % 2 == 0 { 4 } else { 6 };
+        let te = i % 3 != 0;
+        let unit = if fam == 4 { 4 } else { 8 };
+        let form = match i % 5 {
+            0 => ExtForm::None,
+            1 | 2 => ExtForm::Compliant,
+            _ => ExtForm::Legacy,
+        };
+        // original datagram length: boundaries around 128 and the whole range the length field can express
+        let qlen: usize = match rng.random_range(0..6) {
+            0 => *[28usize, 48, 56, 84, 127, 128, 129, 132, 136].get(rng.random_range(0..9)).unwrap(),
+            1 => rng.random_range(20..=128),
+            2 => rng.random_range(129..=600),
+            3 => unit * rng.random_range(32..=(if fam == 4 { 220 } else { 110 })),
+            _ => rng.random_range(20..=900),
+        };
+        let quoted: Vec<u8> = (0..qlen).map(|j| if j == qlen - 1 { 0xee } else { rng.random_range(1..=255) }).collect();
+        let nobj = rng.random_range(0..=3);
+        let mut objects = Vec::new();
+        for _ in 0..nobj {
+            if rng.random_bool(0.6) {
+                let m = rng.random_range(0..=4);
+                let all_zero_bos = rng.random_bool(0.15);
+                objects.push(ExtObject::Mpls(
+                    (0..m).map(|j| MplsMember {
+                        label: rng.random_range(0..(1 << 20)),
+                        exp: rng.random_range(0..8),
+                        bos: u8::from(j == m - 1 && !all_zero_bos),
+                        ttl: rng.random(),
+                    }).collect(),
+                ));
+            } else {
+                let pl = 4 * rng.random_range(0..=5usize);
+                objects.push(ExtObject::Other {
+                    class: *[2u8, 3, 4, 5, 200, 255].get(rng.random_range(0..6)).unwrap(),
+                    ctype: rng.random(),
+                    payload: (0..pl).map(|_| rng.random()).collect(),
+                });
+            }
+        }
+        let ext = if form == ExtForm::None { Vec::new() } else { w::ext_structure(&objects) };
+        let msg = if fam == 4 {
+            w::icmp4_error(if te { 11 } else { 3 }, if te { 0 } else { 3 }, &quoted, form, &ext)
+        } else {
+            w::icmp6_error(s6, d6, if te { 3 } else { 1 }, if te { 0 } else { 4 }, &quoted, form, &ext)
+        };
+        if msg.len() > 1024 {
+            continue;
+        }
+        // a compliant sender keeps the error within 576 octets (IPv4, RFC 1812) / 1280 octets (IPv6)
+        let qlen = if form == ExtForm::Compliant {
+            qlen.min(if fam == 4 { 576 - 20 - 8 - ext.len() } else { (1280 - 40 - 8 - ext.len()) / 8 * 8 })
+        } else {
+            qlen
+        };
+        let desc = json!({"fam":fam,"te":te,"form":match form { ExtForm::None => "none", ExtForm::Compliant => "compliant", ExtForm::Legacy => "legacy" },
+            "qlen":qlen,"unit":unit,"objs":objects.iter().map(obj_json).collect::<Vec<_>>()});
+        let r = std::panic::catch_unwind(|| parse_ext(fam, te, &msg));
+        match r {
+            Ok(Some(mut parsed)) => {
+                // does the recovered datagram start with the original one, and is the rest zero padding?
+                let p_off = parsed["p_off"].as_u64().unwrap() as usize + 8;
+                let p_len = parsed["p_len"].as_u64().unwrap() as usize;
+                let rec = &msg[p_off..p_off + p_len];
+                let keep = qlen.min(p_len);
+                let prefix_ok = rec[..keep] == quoted[..keep];
+                let pad_zero = rec[keep..].iter().all(|&b| b == 0);
+                let po = parsed.as_object_mut().unwrap();
+                po.insert("prefix_ok".into(), json!(prefix_ok));
+                po.insert("pad_zero".into(), json!(pad_zero));
+                writeln!(out, "{}", json!({"e":"ext","d":desc,"p":parsed})).unwrap();
+            }
+            Ok(None) => {
+                writeln!(out, "{}", json!({"e":"ext_unparsed","d":desc})).unwrap();
+            }
+            Err(_) => {
+                panics += 1;
+                writeln!(out, "{}", json!({"e":"ext_panic","d":desc})).unwrap();
+            }
+        }
+        events += 1;
+        // corruptions of the same message: parsing must stop inside the message and terminate
+        for _ in 0..4 {
+            let mut bad = msg.clone();
+            match rng.random_range(0..5) {
+                0 => {
+                    let k = rng.random_range(4..8);
+                    bad[k] = rng.random();
+                }
+                1 => {
+                    let cut = rng.random_range(8..=bad.len());
+                    bad.truncate(cut);
+                }
+                2 => {
+                    if bad.len() > 140 {
+                        let k = rng.random_range(136..bad.len());
+                        bad[k] = rng.random();
+                    }
+                }
+                3 => {
+                    for _ in 0..rng.random_range(1..8) {
+                        let k = rng.random_range(8..bad.len());
+                        bad[k] = rng.random();
+                    }
+                }
+                _ => {
+                    let extra: Vec<u8> = (0..rng.random_range(1..40)).map(|_| rng.random()).collect();
+                    bad.extend_from_slice(&extra);
+                }
+            }
+            if bad.len() > 1024 {
+                bad.truncate(1024);
+            }
+            let r = std::panic::catch_unwind(|| parse_ext(fam, te, &bad));
+            match r {
+                Ok(Some(p)) => writeln!(out, "{}", json!({"e":"extc","fam":fam,"unit":unit,"panic":false,"p":p})).unwrap(),
+                Ok(None) => writeln!(out, "{}", json!({"e":"extc_short","fam":fam})).unwrap(),
+                Err(_) => {
+                    panics += 1;
+                    writeln!(out, "{}", json!({"e":"extc","fam":fam,"unit":unit,"panic":true,"p":{"len_field":bad.get(if fam == 4 { 5 } else { 4 }).copied().unwrap_or(0),"p_off":0,"p_len":0,"has_ext":false,"e_off":-1,"e_len":0,"total":bad.len().saturating_sub(8),"version":-1,"objs":[],"iters":0}})).unwrap();
+                }
+            }
+            events += 1;
+        }
+    }
+    writeln!(out, "{}", json!({"e":"end","panic":panics > 0,"panics":panics})).unwrap();
+    (events + 1, panics)
 }
